@@ -290,11 +290,11 @@ def extract(tree):
     # reads an event without callback and does not decrement), not off the text of the enclosing conditions
     from . import ctrpaths
     res["selfpipe_dec_needs_cb"] = ctrpaths.selfpipe_dec_needs_cb(tree)
-    res.update(selfpipe_shape(fn))
+    res.update(selfpipe_shape(fn, tree))
     return res
 
 
-def selfpipe_shape(fn):
+def selfpipe_shape(fn, tree):
     """Structure of the self-pipe reader and of its epoll registration (what Loop/SelfPipe.lean depends on):
       batch = whole JanetSelfPipeEvent records fetched by one read(2) (1 for `JanetSelfPipeEvent x; read(fd, &x, sizeof(x))`,
               N for `JanetSelfPipeEvent xs[N]; read(fd, xs, sizeof(xs))`),
@@ -317,14 +317,10 @@ def selfpipe_shape(fn):
     if not dm or bool(dm.group(1)) == buf.startswith("&"):
         raise ExtractError("janet_ev_handle_selfpipe: declaration of the read buffer %s not recognised" % var)
     batch = int(dm.group(2)) if dm.group(1) else 1
-    # recur: goto to a label that precedes the read, issued from the `status > 0` branch; or an endless loop around the read
-    recur = False
-    for g, gguards in sites(hs, r"\bgoto\s+(\w+)\s*;"):
-        lab = re.search(r"\b%s\s*:" % re.escape(g.group(1)), hs)
-        if lab and lab.start() < m.start() and any(re.match(r"^if\(status>0\)$", x) for x in gguards):
-            recur = True
-    if any(x in ("while(1)", "for(;;)") for x in guards) and re.search(r"\b(break|return)\s*;", hs):
-        recur = True
+    # recur: read off the control-flow paths (tools/gen/ctrpaths.py): every path on which an event was read comes back to a loop head
+    # from which the read is executed again - whatever the loop is written with (goto, for (;;) … break, while (1), do … while)
+    from . import ctrpaths
+    recur = ctrpaths.selfpipe_recur(tree)
     if "janet_ev_init" not in fn:
         raise ExtractError("ev.c: function janet_ev_init not found")
     ini = _ws(fn["janet_ev_init"])
